@@ -123,6 +123,37 @@ func Yield()             {}
 func SchedExplore(n int) {}
 func RaceDetect()        {}
 
+// And, Or, Not: boolean connectives that do not short-circuit (no path split under the executor).
+func And(a, b bool) bool { return a && b }
+func Or(a, b bool) bool  { return a || b }
+func Not(a bool) bool    { return !a }
+
+// Ite*: value-level conditionals (no path split under the executor).
+func IteInt(c bool, a, b int) int {
+	if c {
+		return a
+	}
+	return b
+}
+func IteU8(c bool, a, b uint8) uint8 {
+	if c {
+		return a
+	}
+	return b
+}
+func IteU32(c bool, a, b uint32) uint32 {
+	if c {
+		return a
+	}
+	return b
+}
+func IteBool(c bool, a, b bool) bool {
+	if c {
+		return a
+	}
+	return b
+}
+
 // Symbolic reports whether the code runs under the symbolic executor.
 func Symbolic() bool { return false }
 
